@@ -52,6 +52,10 @@ def correspondence(ctx):
             cases.append(f'prof|{prof_}|{op_}|f|b|{c_:04X}|')
             cases.append(f'prof|{prof_}|{op_}|f|b|0061 {c_:04X}|')
             cases.append(f'prof|{prof_}|{op_}|f|b|{c_:04X} 0041|')
+    for s_ in mark_structures(ctx):
+        cases.append(f'prof|nick|enforce|f|b|{hexs(s_)}|')
+    for s_ in straddle_strings(maxn=40 if ctx.tier == 'quick' else 130):
+        cases.append(f'prof|nick|enforce|f|b|{hexs(s_)}|')
     res = run_cases(cases, ctx.work)
     round_results = {}
     for case, impl_, _, _ in res:
